@@ -17,7 +17,7 @@ from pyopenapi_gen.core.postprocess_manager import PostprocessManager
 from pyopenapi_gen.core.spec_fetcher import fetch_spec
 from pyopenapi_gen.core.warning_collector import WarningCollector
 from pyopenapi_gen.emitters.client_emitter import ClientEmitter
-from pyopenapi_gen.emitters.core_emitter import CoreEmitter
+from pyopenapi_gen.emitters.core_emitter import RUNTIME_FILES, CoreEmitter
 from pyopenapi_gen.emitters.endpoints_emitter import EndpointsEmitter
 from pyopenapi_gen.emitters.exceptions_emitter import ExceptionsEmitter
 from pyopenapi_gen.emitters.mocks_emitter import MocksEmitter
@@ -311,7 +311,9 @@ class ClientGenerator:
                 if not no_postprocess:
                     self._log_progress("Running post-processing on temporary files", "POSTPROCESS_TEMP")
                     # Pass the temp project root to PostprocessManager
-                    PostprocessManager(str(tmp_project_root_for_diff)).run([str(p) for p in temp_generated_files])
+                    PostprocessManager(str(tmp_project_root_for_diff)).run(
+                        self._postprocess_targets(temp_generated_files, tmp_core_dir_for_diff)
+                    )
                     self._log_progress(f"Post-processed {len(temp_generated_files)} files", "POSTPROCESS_TEMP")
 
                 # --- Compare final output dirs with the temp output dirs ---
@@ -497,7 +499,7 @@ class ClientGenerator:
             # Post-processing applies to all generated files
             if not no_postprocess:
                 self._log_progress("Running post-processing on generated files", "POSTPROCESS")
-                PostprocessManager(str(project_root)).run([str(p) for p in generated_files])
+                PostprocessManager(str(project_root)).run(self._postprocess_targets(generated_files, core_dir))
                 self._log_progress(f"Post-processed {len(generated_files)} files", "POSTPROCESS")
 
         total_time = time.time() - self.start_time
@@ -580,6 +582,19 @@ class ClientGenerator:
             GenerationError: If loading fails.
         """
         return fetch_spec(path_or_url)
+
+    @staticmethod
+    def _postprocess_targets(files: List[Path], core_dir: Path) -> List[str]:
+        """Files handed to post-processing: all but the runtime modules copied verbatim into the core package.
+
+        Those are shipped as they are; fixing their imports and reformatting them would make every client's copy
+        differ from the shipped module.
+        """
+        runtime_copies = {
+            os.path.normpath(core_dir / destination.split("/", 1)[1]) for _, _, destination in RUNTIME_FILES
+        }
+        # (an external core is emitted through a path relative to the output package: compare normalised paths)
+        return [str(p) for p in files if os.path.normpath(p) not in runtime_copies]
 
     def _show_diffs(self, old_dir: str, new_dir: str) -> bool:
         """
